@@ -8,13 +8,19 @@
    interpreter runs are the ones regenerated from the source tree on every run (gen/Gen_handlers.v), equal to the
    hand-written ones of the model (proofs/HostileTie.v).  Every event of the connection's trace is checked against a
    ghost replay of everything that happened before it ([ev_ok], proofs/HostileP.v). *)
+(* SCOPE.  "Every sequence of messages": the theorems below hold for every list of inputs, but they DESCRIBE a connection only up to
+   the first message whose outcome is OUnm (the model does not describe it; absorbing, c07_unmodelled_is_absorbing): a by-name access
+   of a policy-allowed name on a plain value, a call with non-empty keyword pairs, a frozenset payload whose order matters, nesting
+   deeper than 64, a float release count, a tuple callee with a non-iterable star argument.  One message is one atomic step: requests
+   the peer sends while the server waits for the answer to its own nested request are outside every theorem (harness oracle only).
+   Operations whose target is a peer proxy are one scripted exchange (flag approx). *)
 From V Require Import lib.Base lib.Sx model.Brine model.Attr model.Hostile proofs.AttrP proofs.HostileP proofs.HostileTie
   gen.Gen_handlers gen.Gen_attrpolicy.
 From V Require model.Vinegar.
 From Coq Require Import String.
 
 (* the connection as the pinned tree + default configuration define it *)
-Notation GEN_RUN S w l := (run S default_config Gen_handlers.handlers Gen_handlers.dispatch Gen_handlers.msg_ladder
+Notation GEN_RUN S w l := (run S tree_config Gen_handlers.handlers Gen_handlers.dispatch Gen_handlers.msg_ladder
                                Gen_handlers.unbox_ladder Gen_handlers.box_ladder (init w) l).
 
 (* 0. The master invariant, for every service, every configuration and every handler table of the handler language that
@@ -24,7 +30,7 @@ Theorem c07_trace_wellformed : forall W (S : sem W) C HT DT ML UL BL, val_closed
 Proof. intros. now apply wf_run. Qed.
 Print Assumptions c07_trace_wellformed.
 
-Theorem c07_trace_wellformed_pinned_tree : forall W (S : sem W), val_closed S -> forall w l, wf S default_config (tr (GEN_RUN S w l)).
+Theorem c07_trace_wellformed_pinned_tree : forall W (S : sem W), val_closed S -> forall w l, wf S tree_config (tr (GEN_RUN S w l)).
 Proof. intros. apply wf_run; [assumption|exact handlers_guarded]. Qed.
 Print Assumptions c07_trace_wellformed_pinned_tree.
 
@@ -35,17 +41,17 @@ Print Assumptions c07_trace_wellformed_pinned_tree.
 Theorem c07_only_table_objects : forall W (S : sem W), val_closed S -> forall w l t1 k o t2,
   tr (GEN_RUN S w l) = t1 ++ EResolve k o :: t2 ->
   (exists c, tbl_find k (g_tbl (ghost_of t2)) = Some (o, c)) /\ exists k', In (EBox k' o) t2.
-Proof. intros W S Sv w l. exact (resolve_only_lent S default_config _ _ _ _ _ Sv handlers_guarded w l). Qed.
+Proof. intros W S Sv w l. exact (resolve_only_lent S tree_config _ _ _ _ _ Sv handlers_guarded w l). Qed.
 Print Assumptions c07_only_table_objects.
 
 Theorem c07_unknown_reference_is_keyerror : forall W (S : sem W), val_closed S -> forall w l t1 k t2,
   tr (GEN_RUN S w l) = t1 ++ EMiss k :: t2 -> tbl_find k (g_tbl (ghost_of t2)) = None.
-Proof. intros W S Sv w l. exact (miss_not_lent S default_config _ _ _ _ _ Sv handlers_guarded w l). Qed.
+Proof. intros W S Sv w l. exact (miss_not_lent S tree_config _ _ _ _ _ Sv handlers_guarded w l). Qed.
 Print Assumptions c07_unknown_reference_is_keyerror.
 
 Theorem c07_table_is_replay_of_lend_events : forall W (S : sem W), val_closed S -> forall w l,
   tbl (GEN_RUN S w l) = g_tbl (ghost_of (tr (GEN_RUN S w l))).
-Proof. intros W S Sv w l. exact (table_is_replay S default_config _ _ _ _ _ Sv handlers_guarded w l). Qed.
+Proof. intros W S Sv w l. exact (table_is_replay S tree_config _ _ _ _ _ Sv handlers_guarded w l). Qed.
 Print Assumptions c07_table_is_replay_of_lend_events.
 
 (* 1'. Concretely: a request whose first argument refers to a key that is not in the table is answered with KeyError under
@@ -53,10 +59,10 @@ Print Assumptions c07_table_is_replay_of_lend_events.
 Theorem c07_forged_reference_refused : forall W (S : sem W) (s : hst W) seq h key rest answers,
   lost s = false -> closed s = false -> tbl_find key (tbl s) = None ->
   let msg := PTuple [PInt 1; seq; PTuple [h; PTuple [PInt 2; PTuple (PTuple [PInt 3; key] :: rest)]]] in
-  exists s', handle_msg S default_config Gen_handlers.handlers Gen_handlers.dispatch Gen_handlers.msg_ladder
+  exists s', handle_msg S tree_config Gen_handlers.handlers Gen_handlers.dispatch Gen_handlers.msg_ladder
                Gen_handlers.unbox_ladder Gen_handlers.box_ladder msg answers s = (s', OExc seq (XStd KeyError))
     /\ wst s' = wst s /\ tbl s' = tbl s /\ tr s' = EMiss key :: EMsg :: tr s /\ closed s' = false.
-Proof. intros W S. exact (forged_reference_refused S _ _). Qed.
+Proof. intros W S. exact (forged_reference_refused S tree_config _ _). Qed.
 Print Assumptions c07_forged_reference_refused.
 
 (* 2. Whatever the implementation touches, probes, accesses by name, lends or pickles is an object the current request holds
@@ -65,7 +71,7 @@ Print Assumptions c07_forged_reference_refused.
 Theorem c07_touched_only_held : forall W (S : sem W), val_closed S -> forall w l t1 e t2 o,
   tr (GEN_RUN S w l) = t1 ++ e :: t2 -> target e = Some o ->
   In o (g_auth (ghost_of t2)) /\ exists e', In e' t2 /\ gives e' o.
-Proof. intros W S Sv w l. exact (touched_only_held S default_config _ _ _ _ _ Sv handlers_guarded w l). Qed.
+Proof. intros W S Sv w l. exact (touched_only_held S tree_config _ _ _ _ _ Sv handlers_guarded w l). Qed.
 Print Assumptions c07_touched_only_held.
 
 (* 3. Every access by a peer-chosen name passed the C06 decision; under the default configuration that means: a read
@@ -75,7 +81,7 @@ Theorem c07_attr_effects_checked : forall W (S : sem W), val_closed S -> forall 
   tr (GEN_RUN S w l) = t1 ++ EAttr o p final ys :: t2 -> p = PGet /\ allowed_default final.
 Proof.
   intros W S Sv w l t1 o p final ys t2 E.
-  destruct (trace_event_ok S default_config _ _ _ _ _ Sv handlers_guarded w l _ _ _ E) as (_ & pn & vw & D).
+  destruct (trace_event_ok S tree_config _ _ _ _ _ Sv handlers_guarded w l _ _ _ E) as (_ & pn & vw & D).
   exact (default_decision p pn vw final D).
 Qed.
 Print Assumptions c07_attr_effects_checked.
@@ -85,7 +91,7 @@ Theorem c07_probes_only_allowed_names : forall W (S : sem W), val_closed S -> fo
   tr (GEN_RUN S w l) = t1 ++ EProbe o n :: t2 -> allowed_default n.
 Proof.
   intros W S Sv w l t1 o n t2 E.
-  destruct (trace_event_ok S default_config _ _ _ _ _ Sv handlers_guarded w l _ _ _ E) as (_ & p & pn & vw & H).
+  destruct (trace_event_ok S tree_config _ _ _ _ _ Sv handlers_guarded w l _ _ _ E) as (_ & p & pn & vw & H).
   exact (probe_names_default p pn vw n H).
 Qed.
 Print Assumptions c07_probes_only_allowed_names.
@@ -96,7 +102,7 @@ Theorem c07_hook_only_when_defined : forall W (S : sem W), val_closed S -> foral
   exists pn vw, decide true (c_attr default_config) p pn vw = Ok (ViaHook n) /\ hook_for vw p = true.
 Proof.
   intros W S Sv w l t1 o p n ys t2 E.
-  destruct (trace_event_ok S default_config _ _ _ _ _ Sv handlers_guarded w l _ _ _ E) as (_ & pn & vw & D).
+  destruct (trace_event_ok S tree_config _ _ _ _ _ Sv handlers_guarded w l _ _ _ E) as (_ & pn & vw & D).
   exists pn, vw. split; [exact D|]. revert D. unfold decide, Attr.access_attr.
   destruct (nkind_of pn); try discriminate; destruct (hook_for vw p); try reflexivity;
     match goal with |- context [Attr.check_attr ?a ?b ?c ?d ?e] => destruct (Attr.check_attr a b c d e) as [[]| | |] end; cbn; discriminate.
@@ -112,7 +118,7 @@ Proof.
 Qed.
 Print Assumptions c07_no_pickle.
 Theorem c07_no_pickle_pinned_tree : forall W (S : sem W), val_closed S -> forall w l o ys, ~ In (ETouch o OpPickle ys) (tr (GEN_RUN S w l)).
-Proof. intros W S Sv. exact (c07_no_pickle W S default_config _ _ _ _ _ Sv handlers_guarded eq_refl). Qed.
+Proof. intros W S Sv. exact (c07_no_pickle W S tree_config _ _ _ _ _ Sv handlers_guarded eq_refl). Qed.
 Print Assumptions c07_no_pickle_pinned_tree.
 
 (* 5. No exception record — solicited or not, however crafted — makes the process import a module or call a constructor;
@@ -124,7 +130,7 @@ Theorem c07_no_import_no_ctor : forall W (S : sem W), val_closed S -> forall w l
              exists n ok, Vinegar.assoc n (Vinegar.builtins_ns (s_env S)) = Some (Vinegar.AExc c ok)).
 Proof.
   intros W S Sv w l v Hin. apply in_split in Hin as (t1 & t2 & E).
-  destruct (vinegar_effects S default_config _ _ _ _ _ Sv handlers_guarded w l _ _ _ E) as (A & B & D). repeat split.
+  destruct (vinegar_effects S tree_config _ _ _ _ _ Sv handlers_guarded w l _ _ _ E) as (A & B & D). repeat split.
   - intros m ->. destruct (A m eq_refl) as [X|X]; discriminate X.
   - exact B.
   - intros c Hc. exact (D c Hc eq_refl).
@@ -141,12 +147,12 @@ Print Assumptions c07_no_import_no_ctor.
       of the connection (c07_unmodelled_is_absorbing): all statements here are about the modelled prefix ([lost s = false]). *)
 Theorem c07_always_answered_or_dropped : forall W (S : sem W) msg answers (s s' : hst W) o,
   lost s = false ->
-  handle_msg S default_config Gen_handlers.handlers Gen_handlers.dispatch Gen_handlers.msg_ladder Gen_handlers.unbox_ladder
+  handle_msg S tree_config Gen_handlers.handlers Gen_handlers.dispatch Gen_handlers.msg_ladder Gen_handlers.unbox_ladder
              Gen_handlers.box_ladder msg answers s = (s', o) ->
   (closed s = true -> o = ODead /\ s' = s) /\
   (closed s = false -> forall seq args, kind_of Gen_handlers.msg_ladder msg = Some (DRequest, seq, args) ->
-     (exists p, o = OReply seq p) \/ (exists x, o = OExc seq x /\ propagates default_config x = false) \/
-     (exists x, o = OEnd x /\ propagates default_config x = true /\ closed s' = true) \/ (o = OClosed /\ closed s' = true) \/ o = OUnm) /\
+     (exists p, o = OReply seq p) \/ (exists x, o = OExc seq x /\ propagates tree_config x = false) \/
+     (exists x, o = OEnd x /\ propagates tree_config x = true /\ closed s' = true) \/ (o = OClosed /\ closed s' = true) \/ o = OUnm) /\
   (closed s = false -> (forall seq args, kind_of Gen_handlers.msg_ladder msg <> Some (DRequest, seq, args)) ->
      o = OIgnored \/ (exists x, o = OEnd x /\ closed s' = true) \/ o = OUnm).
 Proof.
@@ -161,17 +167,17 @@ Print Assumptions c07_always_answered_or_dropped.
        dropped like any other unsolicited response; the connection ends only for EOFError or for something that is not an Exception. *)
 Theorem c07_undecodable_response : forall W (S : sem W) msg answers (s s' : hst W) o d seq args,
   lost s = false -> closed s = false -> kind_of Gen_handlers.msg_ladder msg = Some (d, seq, args) -> d = DReplyG \/ d = DExceptionG ->
-  handle_msg S default_config Gen_handlers.handlers Gen_handlers.dispatch Gen_handlers.msg_ladder Gen_handlers.unbox_ladder
+  handle_msg S tree_config Gen_handlers.handlers Gen_handlers.dispatch Gen_handlers.msg_ladder Gen_handlers.unbox_ladder
              Gen_handlers.box_ladder msg answers s = (s', o) ->
   o = OIgnored \/ (exists x, o = OEnd x /\ escapes_response x = true /\ closed s' = true) \/ o = OUnm.
-Proof. intros W S. exact (guarded_response_outcome S default_config _ _ _ _ _). Qed.
+Proof. intros W S. exact (guarded_response_outcome S tree_config _ _ _ _ _). Qed.
 Print Assumptions c07_undecodable_response.
 
 (* 6''. Once the model met something it does not describe, it says nothing more: every later outcome is OUnm, nothing changes. *)
 Theorem c07_unmodelled_is_absorbing : forall W (S : sem W) msg answers (s s' : hst W),
-  (lost s = true -> handle_msg S default_config Gen_handlers.handlers Gen_handlers.dispatch Gen_handlers.msg_ladder Gen_handlers.unbox_ladder
+  (lost s = true -> handle_msg S tree_config Gen_handlers.handlers Gen_handlers.dispatch Gen_handlers.msg_ladder Gen_handlers.unbox_ladder
                                Gen_handlers.box_ladder msg answers s = (s, OUnm)) /\
-  (handle_msg S default_config Gen_handlers.handlers Gen_handlers.dispatch Gen_handlers.msg_ladder Gen_handlers.unbox_ladder
+  (handle_msg S tree_config Gen_handlers.handlers Gen_handlers.dispatch Gen_handlers.msg_ladder Gen_handlers.unbox_ladder
               Gen_handlers.box_ladder msg answers s = (s', OUnm) -> lost s' = true).
 Proof. intros W S msg answers s s'. split; [apply lost_is_absorbing|apply unmodelled_sets_lost]. Qed.
 Print Assumptions c07_unmodelled_is_absorbing.
@@ -183,7 +189,7 @@ Print Assumptions c07_unmodelled_is_absorbing.
       not text, unsolicited reply, crafted exception record -- leaves it exactly as it was.  (A denied name on an object is
       refused after the probe hasattr(obj, "exposed_" + name): that probe is service code when the object defines __getattr__.) *)
 Theorem c07_refusals_leave_state_untouched_partial : forall W (S : sem W) msg answers (s s' : hst W) o,
-  handle_msg S default_config Gen_handlers.handlers Gen_handlers.dispatch Gen_handlers.msg_ladder Gen_handlers.unbox_ladder
+  handle_msg S tree_config Gen_handlers.handlers Gen_handlers.dispatch Gen_handlers.msg_ladder Gen_handlers.unbox_ladder
              Gen_handlers.box_ladder msg answers s = (s', o) ->
   (nt (tr s) <= nt (tr s'))%nat /\ (nt (tr s') = nt (tr s) -> wst s' = wst s).
 Proof. intros W S msg answers s s' o E. exact (q_handle_msg S _ _ _ _ _ _ _ _ _ _ _ E). Qed.
@@ -195,9 +201,22 @@ Print Assumptions c07_refusals_leave_state_untouched_partial.
 Theorem c07_class_lookup_never_imports : forall W (S : sem W), val_closed S -> forall w l m, ~ In (ECls m) (tr (GEN_RUN S w l)).
 Proof.
   intros W S Sv w l m Hin. apply in_split in Hin as (t1 & t2 & E).
-  pose proof (class_hook_needs_getattr S default_config _ _ _ _ _ Sv handlers_guarded w l _ _ _ E) as H. discriminate H.
+  pose proof (class_hook_needs_getattr S tree_config _ _ _ _ _ Sv handlers_guarded w l _ _ _ E) as H. discriminate H.
 Qed.
 Print Assumptions c07_class_lookup_never_imports.
+
+(* 7''. netref.class_factory reads no attribute of the object a peer-declared dotted name is bound to in an imported module (an object
+        that was never lent) -- provided it accepts that object by a test on type(found) alone (generated fact class_reads_object = false,
+        the repaired form).  On a tree where it asks the object itself (hasattr(found, '__class__'), found.__class__) the hypothesis
+        fails: c07_class_lookup_reads_unlent_global_refuted shows a never-lent object being read by one PING. *)
+Theorem c07_class_lookup_reads_no_object : Gen_handlers.class_reads_object = false ->
+  forall W (S : sem W), val_closed S -> forall w l o, ~ In (EGlobalRead o) (tr (GEN_RUN S w l)).
+Proof.
+  intros Hf W S Sv w l o Hin. apply in_split in Hin as (t1 & t2 & E).
+  pose proof (class_global_read_needs_form S tree_config _ _ _ _ _ Sv handlers_guarded w l _ _ _ E) as H.
+  unfold tree_config in H. cbn in H. rewrite Hf in H. discriminate H.
+Qed.
+Print Assumptions c07_class_lookup_reads_no_object.
 
 (* 8. Tie to the generated facts of the current source tree. *)
 Theorem c07_tie :
@@ -227,7 +246,7 @@ Definition ex_world : world :=
      w_builtin := [txt "builtins.list"] |}.
 Definition ex_mods : list (Vinegar.text * Vinegar.ns) :=
   [(txt "lazymod", [(txt "Lazy", Vinegar.ALazy [txt "lazymod.impl"] None); (txt "Plain", Vinegar.AOther)])].
-Definition ex_sem : sem unit := world_sem ex_world [txt "ValueError"; txt "KeyboardInterrupt"] ex_mods.
+Definition ex_sem : sem unit := world_sem ex_world [txt "ValueError"; txt "KeyboardInterrupt"] ex_mods [(txt "settings.vault", 2%N)].
 Definition V (v : pyval) := PTuple [PInt 1; v].
 Definition Lr (k : pyval) := PTuple [PInt 3; k].
 Definition Tt (l : list pyval) := PTuple [PInt 2; PTuple l].
@@ -296,6 +315,17 @@ Example c07_class_lookup_refuted_when_getattr :
   /\ ~ In (ECls (txt "lazymod.impl")) (tr (fst (step ex_sem default_config Hostile.handlers Hostile.dispatch Hostile.msg_ladder Hostile.unbox_ladder Hostile.box_ladder (init tt) lazy_ping))).
 Proof. split; vm_compute; [tauto|intuition discriminate]. Qed.
 
+(* 7''-refuted: in the form that asks the found object itself, one PING carrying a proxy label whose declared type name is the dotted name
+   of a module global makes class_factory read attributes of that object: object 2 was never lent, resolved or returned *)
+Definition global_ping : @input unit :=
+  IMsg (PTuple [PInt 1; PInt 1; PTuple [PInt 1; Tt [PTuple [PInt 4; PTuple [S' "settings.vault"; PInt 1; PInt 2]]]]]) [PReply (V (PTuple []))].
+Definition run_global (reads : bool) : hst unit :=
+  fst (step ex_sem (with_cls_reads default_config reads) Hostile.handlers Hostile.dispatch Hostile.msg_ladder Hostile.unbox_ladder Hostile.box_ladder (init tt) global_ping).
+Example c07_class_lookup_reads_unlent_global_refuted :
+  In (EGlobalRead 2%N) (tr (run_global true)) /\ (forall k, ~ In (EBox k 2%N) (tr (run_global true))) /\ tbl (run_global true) = []
+  /\ ~ In (EGlobalRead 2%N) (tr (run_global false)).
+Proof. vm_compute. repeat split; try tauto; intros; intuition discriminate. Qed.
+
 (* 2-witness (known finding "exception payload repr"): reporting an exception applies repr() to the objects the exception carries.
    c07_touched_only_held covers it (the object was handed out by service code, in the exception it raised), but that object
    need not ever have been lent or returned: here object 3 is carried by the exception the call of object 1 raises. *)
@@ -304,7 +334,7 @@ Definition ex_world2 : world :=
                 ex_obj (ex_key 2) 3%N [] ANone; ex_obj (ex_key 3) 3%N [] ANone];
      w_builtin := [] |}.
 Definition ex_final2 : hst unit :=
-  run (world_sem ex_world2 [] []) default_config Hostile.handlers Hostile.dispatch Hostile.msg_ladder Hostile.unbox_ladder Hostile.box_ladder (init tt)
+  run (world_sem ex_world2 [] [] []) default_config Hostile.handlers Hostile.dispatch Hostile.msg_ladder Hostile.unbox_ladder Hostile.box_ladder (init tt)
       [req 1 3 []; req 2 8 [Lr (ex_key 0); V (S' "get"); V (PTuple []); V (PTuple [])]].
 Example c07_exception_payload_repr_witness :
   In (EPayload 3%N OpRepr) (tr ex_final2) /\ (forall k, ~ In (EBox k 3%N) (tr ex_final2)) /\ tbl ex_final2 = [(ex_key 0, 0%N, 0%Z)].
@@ -332,7 +362,7 @@ Definition ex_world3 : world :=
      w_builtin := [] |}.
 Definition cmp_session (name : string) : list (@input unit) := [req 1 3 []; req 2 11 [Lr (ex_key 0); Lr (ex_key 0); V (S' name)]].
 Definition run3 (H : list (string * hdef)) (name : string) : hst unit :=
-  run (world_sem ex_world3 [] []) default_config H Hostile.dispatch Hostile.msg_ladder Hostile.unbox_ladder Hostile.box_ladder (init tt) (cmp_session name).
+  run (world_sem ex_world3 [] [] []) default_config H Hostile.dispatch Hostile.msg_ladder Hostile.unbox_ladder Hostile.box_ladder (init tt) (cmp_session name).
 Example c07_cmp_route_refuted_when_unguarded :
   In (EAttr 1%N PGet (txt "__bool__") [0%N]) (tr (run3 (handlers_of None false) "__bool__")) /\
   (forall ys, ~ In (EAttr 1%N PGet (txt "__bool__") ys) (tr (run3 (handlers_of (Some CMP_NAMES) false) "__bool__"))) /\
